@@ -104,6 +104,9 @@ impl Ctx {
                         }
                     }
                     v["closure_name"] = json!(def.name());
+                    if let Some(rustc_public::ty::GenericArgKind::Type(up)) = args.0.last() {
+                        v["upvars"] = json!(self.note_ty(*up));
+                    }
                 }
                 RigidTy::FnDef(def, args) => {
                     if let Ok(ci) = Instance::resolve(*def, args) {
@@ -159,7 +162,7 @@ impl Ctx {
                 aux.insert("fmt".into(), json!(self.note_inst(i)));
             }
         }
-        let wants_iter = ["::from_iter::<", "::extend::<", "::extend_desugared::<", "::join::<", "::concat::<", "::sum::<", "::product::<", "::collect_into"]
+        let wants_iter = ["::from_iter::<", "::extend::<", "::extend_desugared::<", "::join::<", "::concat::<", "::sum::<", "::product::<", "::collect_into", "::append_all::<", "::append_separated::<", "::append_terminated::<", "::unzip::<", "::partition::<"]
             .iter()
             .any(|p| name.contains(p));
         if wants_iter && (name.starts_with('<') || name.starts_with("std::") || name.starts_with("core::") || name.starts_with("alloc::") || name.starts_with("proc_macro2::") || name.starts_with("quote::")) {
@@ -172,6 +175,35 @@ impl Ctx {
             }
             if let Some(i) = self.resolve_tm("std::iter::Iterator", "next", &[it_ty]) {
                 aux.insert("Iterator::next".into(), json!(self.note_inst(i)));
+            }
+        }
+        if name.contains("::try_fold::<") || name.contains("::try_for_each::<") || name.contains("::try_rfold::<") {
+            if let Some(b) = self.resolve_tm("std::ops::Try", "branch", &[last]) {
+                let mut res_ty = None;
+                if let Ok(abi) = b.fn_abi() {
+                    if let TyKind::RigidTy(RigidTy::Adt(_, args)) = abi.ret.ty.kind() {
+                        if let Some(rustc_public::ty::GenericArgKind::Type(t)) = args.0.first() {
+                            res_ty = Some(*t);
+                        }
+                    }
+                }
+                aux.insert("Try::branch".into(), json!(self.note_inst(b)));
+                if let Some(i) = self.resolve_tm("std::ops::Try", "from_output", &[last]) {
+                    aux.insert("Try::from_output".into(), json!(self.note_inst(i)));
+                }
+                if let Some(rt) = res_ty {
+                    if let Some(i) = self.resolve_tm("std::ops::FromResidual", "from_residual", &[last, rt]) {
+                        aux.insert("FromResidual::from_residual".into(), json!(self.note_inst(i)));
+                    }
+                }
+            }
+        }
+        if name.contains(" as quote::ToTokens>::to_token_stream") || name.contains(" as quote::ToTokens>::into_token_stream") {
+            for tn in ["quote::ToTokens", "quote::to_tokens::ToTokens"] {
+                if let Some(i) = self.resolve_tm(tn, "to_tokens", &[first]) {
+                    aux.insert("ToTokens::to_tokens".into(), json!(self.note_inst(i)));
+                    break;
+                }
             }
         }
         if name.contains("]>::contains") || name.contains("::dedup") || name.contains("]>::starts_with") || name.contains("]>::ends_with") {
